@@ -536,14 +536,37 @@ func main() {
 
 	// ---- lock traces of every function of the anchored files (locks.go)
 	var traces []*lockWalker
-	for _, rel := range []string{"tick.go", "ver.go", "addr.go", "invs.go", "hdrs.go", "data.go", "cblk.go", "trxs.go", "ping.go", "core.go"} {
+	pkgs, globals := map[string]bool{}, map[string]bool{}
+	traceFiles := []string{"tick.go", "ver.go", "addr.go", "invs.go", "hdrs.go", "data.go", "cblk.go", "trxs.go", "ping.go", "core.go"}
+	for _, rel := range traceFiles {
 		f := files["client/network/"+rel]
 		if f == nil {
 			var err error
 			if f, err = vtrans.Parse("client/network/" + rel); err != nil {
 				die(err)
 			}
+			files["client/network/"+rel] = f
 		}
+		for _, d := range f.AST.Decls {
+			if gd, ok := d.(*ast.GenDecl); ok && gd.Tok == token.VAR {
+				for _, sp := range gd.Specs {
+					for _, n := range sp.(*ast.ValueSpec).Names {
+						globals[n.Name] = true
+					}
+				}
+			}
+		}
+		for _, im := range f.AST.Imports {
+			p, _ := strconv.Unquote(im.Path.Value)
+			if im.Name != nil {
+				pkgs[im.Name.Name] = true
+			} else {
+				pkgs[p[strings.LastIndex(p, "/")+1:]] = true
+			}
+		}
+	}
+	for _, rel := range traceFiles {
+		f := files["client/network/"+rel]
 		fset = f.Fset
 		for _, d := range f.AST.Decls {
 			fd, ok := d.(*ast.FuncDecl)
@@ -558,9 +581,10 @@ func main() {
 			if lockTraceSkip[name] != "" {
 				continue
 			}
-			traces = append(traces, lockTraceOf(name, fd))
+			traces = append(traces, lockTraceOf(name, fd, pkgs))
 		}
 	}
+	resolveCalls(traces, pkgs, globals)
 	if len(traces) < 60 {
 		die(fmt.Errorf("lock traces: only %d functions found", len(traces)))
 	}
